@@ -275,6 +275,14 @@ func init() {
 				ctx.Fail("scopes_derived_from_a_closed_scope_are_inert", f, sc, nil)
 			}
 		}
+		// closing and dropping one scope of a tagged tree leaves every other scope as it was
+		for k := 0; k < 24; k++ {
+			cs := map[string]interface{}{"others_stream": true, "cached": k%2 == 1, "dropped_by_pass": k%4 < 2, "victim": k / 4}
+			ctx.Case(cs, "", "close-does-not-affect-other-scopes", "")
+			if f := c07Others(k%2 == 1, k%4 < 2, k/4); f != "" {
+				ctx.Fail("closing_a_scope_never_affects_another", f, cs, nil)
+			}
+		}
 		// Close called on one subscope by several goroutines at the same moment (uncontrolled)
 		for k := 0; k < ctx.N(4, 60); k++ {
 			cs := map[string]interface{}{"close_storm": true, "cached": k%2 == 1, "goroutines": 4 + 4*(k/2%2), "rounds": 1500}
@@ -286,6 +294,96 @@ func init() {
 			}
 		}
 	}
+}
+
+// c07Others: "Closing a scope never affects any other scope": a tagged root, children derived with and
+// without tags of their own (a child without new tags may share its parent's tag map), siblings and
+// grandchildren; one of them is closed and dropped (by a pass or by asking for it again); afterwards
+// every other scope still delivers under its own name and tags, and scopes derived later too.
+func c07Others(cached, viaPass bool, victim int) (fail string) {
+	defer func() {
+		if p := recover(); p != nil {
+			fail = fmt.Sprintf("panic: %v", p)
+		}
+	}()
+	log := &Log{}
+	opts := tally.ScopeOptions{OmitCardinalityMetrics: true, Tags: map[string]string{"service": "svc", "env": "e"}, Prefix: "r"}
+	if cached {
+		opts.CachedReporter = &RecCached{L: log, Caps: caps{true, true}}
+	} else {
+		opts.Reporter = &RecReporter{L: log, Caps: caps{true, true}}
+	}
+	root, closer := tally.VerifNewRootScope(opts, 0, 2)
+	defer closer.Close()
+	type sc struct {
+		s    tally.Scope
+		name string
+		tags string
+	}
+	base := "env=e,service=svc"
+	withk := "env=e,k=v,service=svc"
+	mk := func() []sc {
+		a := root.SubScope("a")
+		return []sc{
+			{root, "r.", base},
+			{a, "r.a.", base},
+			{root.SubScope("b"), "r.b.", base},
+			{a.SubScope("x"), "r.a.x.", base},
+			{root.Tagged(map[string]string{"k": "v"}), "r.", withk},
+			{a.Tagged(map[string]string{}), "r.a.", base},
+			{root.Tagged(map[string]string{"k": "v"}).SubScope("y"), "r.y.", withk},
+		}
+	}
+	scs := mk()
+	for i, x := range scs {
+		x.s.Counter(fmt.Sprintf("m%d", i)).Inc(1)
+	}
+	v := scs[1+victim%(len(scs)-1)]
+	v.s.(interface{ Close() error }).Close()
+	if viaPass {
+		tally.VerifReportOnce(root)
+	} else {
+		mk() // asks for every scope again: the closed one is reported, dropped and replaced
+	}
+	scs2 := mk()
+	for i, x := range scs2 {
+		x.s.Counter(fmt.Sprintf("n%d", i)).Inc(1)
+		x.s.Gauge(fmt.Sprintf("g%d", i)).Update(2)
+	}
+	late := root.SubScope("late").Tagged(map[string]string{"z": "1"})
+	late.Counter("l").Inc(1)
+	tally.VerifReportOnce(root)
+	tally.VerifReportOnce(root)
+	want := map[string]string{"r.late.l": base + ",z=1"}
+	for i, x := range scs {
+		want[fmt.Sprintf("%sm%d", x.name, i)] = x.tags
+		want[fmt.Sprintf("%sn%d", x.name, i)] = x.tags
+		want[fmt.Sprintf("%sg%d", x.name, i)] = x.tags
+	}
+	seen := map[string]bool{}
+	for _, e := range log.Snapshot() {
+		if (e.K == 1 || e.K == 2 || e.K == 11 || e.K == 12) && len(e.S) >= 1 {
+			var kv []string
+			for j := 1; j+1 < len(e.S); j += 2 {
+				kv = append(kv, e.S[j]+"="+e.S[j+1])
+			}
+			got := strings.Join(kv, ",")
+			w, ok := want[e.S[0]]
+			if !ok {
+				return fmt.Sprintf("after closing %q: a delivery under the unknown name %q (tags %q)", v.name, e.S[0], got)
+			}
+			if got != w {
+				return fmt.Sprintf("after closing and dropping the scope %q{%s}: %q was delivered with tags {%s}, expected {%s}", v.name, v.tags, e.S[0], got, w)
+			}
+			seen[e.S[0]] = true
+		}
+	}
+	for n := range want {
+		if !seen[n] {
+			return fmt.Sprintf("after closing and dropping the scope %q{%s}: nothing was delivered under %q", v.name, v.tags, n)
+		}
+	}
+	return ""
 }
 
 // c07CloseStorm: "closing twice is harmless ... none of this can panic", also when the Close calls on
